@@ -408,7 +408,7 @@ func hasField(flat map[string]string, path string) bool {
 
 // oneofExcused: leaf l (changed outside every region) was necessarily cleared because a sibling arm of a oneof
 // on l's path was written by this update (or had to be created to reach a region below it).
-func oneofExcused(md protoreflect.MessageDescriptor, l string, fgot map[string]string, touched []string) bool {
+func oneofExcused(md protoreflect.MessageDescriptor, l string, fgot, fsrc map[string]string, touched []string) bool {
 	if _, still := fgot[l]; still {
 		return false
 	}
@@ -429,8 +429,8 @@ func oneofExcused(md protoreflect.MessageDescriptor, l string, fgot map[string]s
 					continue
 				}
 				hg := prefix + string(g.Name())
-				if !hasField(fgot, hg) {
-					continue
+				if !hasField(fgot, hg) && !hasField(fsrc, hg) {
+					continue // the sibling arm was neither written nor is it set now (a reset path may have cleared it again)
 				}
 				for _, q := range touched {
 					if covers(hg, q) {
@@ -582,7 +582,7 @@ func checkMerge(old, src, got proto.Message, M, W mask, sp spec) []finding {
 				break
 			}
 		}
-		if inside || oneofExcused(md, l, fgot, written) {
+		if inside || oneofExcused(md, l, fgot, fsrc, written) {
 			continue
 		}
 		report("C05/frame/"+frameClass(l, M, W, fold, fgot, fsrc),
@@ -600,13 +600,16 @@ func checkMerge(old, src, got proto.Message, M, W mask, sp spec) []finding {
 				rel = "inside-update-region"
 			}
 		}
-		if sp.nothingW {
-			rel = "nothing-writable"
-		}
 		if hasField(fsrc, rp) {
 			rel += "/written-has-it"
 		} else {
 			rel += "/written-lacks-it"
+		}
+		if overlapsAround(sp.reset, rp) {
+			rel = "reset-mask-with-parent-and-child-paths"
+		}
+		if sp.nothingW {
+			rel = "nothing-writable"
 		}
 		report("C05/reset/"+rel, fmt.Sprintf("reset path %s is still set after the write: %v", rp, subFlat(fgot, rp, nil)))
 	}
@@ -646,12 +649,29 @@ func checkMerge(old, src, got proto.Message, M, W mask, sp spec) []finding {
 			srcHas = "written-has-it"
 		}
 		key := "C05/" + kindOf(rg.fd) + "/" + rg.mode.String() + "/" + srcHas
-		if rg.overlap {
-			key += "/child-path-also-in-M"
+		switch {
+		case overlapsAround(W.paths, rg.path):
+			// the writable mask lists a path and one of its descendants around this region
+			key = "C05/writable-mask-with-parent-and-child-paths/" + rg.mode.String()
+		case rg.overlap:
+			key = "C05/update-mask-with-parent-and-child-paths/" + srcHas
 		}
 		report(key, fmt.Sprintf("region %q (%s, %s): result %v matches none of the acceptable results %v", rg.path, kindOf(rg.fd), rg.mode, g, candRegion(candFlat, rg.path, sp.reset)))
 	}
 	return out
+}
+
+// overlapsAround reports whether paths contains a path a and a strict descendant of it, with a at, above or below q
+// (so that the narrower path can change what the mask means for q).
+func overlapsAround(paths []string, q string) bool {
+	for _, a := range paths {
+		for _, b := range paths {
+			if a != b && covers(a, b) && (covers(a, q) || covers(q, a)) {
+				return true
+			}
+		}
+	}
+	return false
 }
 
 func regionPaths(rs []region) []string {
